@@ -1087,6 +1087,10 @@ fn check_c07(w: &World, s: &Step, resp: Option<&Response>, pre: &Obs, post: &Obs
     let _ = post;
     let sender = w.senders[s.sender].as_str();
     let admin = pre.is_admin(sender);
+    if w.subkeys {
+        // "within its unexpired allowance": the deadline an allowance is judged by is the one admins set
+        check_grant_expiry(prop, s, resp.is_some(), pre, post, at)?;
+    }
     let Call::Execute(msgs) = &s.call else {
         // nothing but Execute re-dispatches anything
         if let Some(r) = resp {
@@ -1142,12 +1146,50 @@ fn u256(x: u128) -> Uint256 {
     Uint256::from(x)
 }
 
+
+/// Grants follow the cw20-style rule the contract's README refers to ("similar to cw20
+/// IncreaseAllowance / DecreaseAllowance"): `expires: Some(e)` sets the deadline to e, `expires: None`
+/// leaves the deadline the subkey's allowance had before the call (as the Allowance query reports it)
+/// untouched. A grant that silently moves a deadline lets an allowance outlive the expiry an admin set.
+fn check_grant_expiry(prop: &str, s: &Step, ok: bool, pre: &Obs, post: &Obs, at: &str) -> Result<(), Violation> {
+    if !ok {
+        return Ok(());
+    }
+    let (exp, is_decrease) = match &s.call {
+        Call::Increase { exp, .. } => (exp, false),
+        Call::Decrease { exp, .. } => (exp, true),
+        _ => return Ok(()),
+    };
+    let Some(x) = s.target else { return Ok(()) };
+    let (p, q) = (&pre.allow[x], &post.allow[x]);
+    if is_decrease {
+        // a decrease never makes more spendable than was visible (unexpired) before it
+        for (denom, amount) in &q.bal {
+            if *amount > p.get(denom) {
+                return Err(v(prop, "decrease-revived-allowance", format!("{at}: after a DecreaseAllowance sender{x} may spend {amount} {denom}, before it only {} was visible (unexpired)", p.get(denom))));
+            }
+        }
+    }
+    if is_decrease && q.bal.is_empty() {
+        return Ok(()); // the entry is gone (or empty): nothing left that could outlive anything
+    }
+    let want = match exp {
+        Some(e) => *e,
+        None => p.expires,
+    };
+    if q.expires != want {
+        return Err(v(prop, "grant-moved-deadline", format!("{at}: the allowance of sender{x} had deadline {:?} before the call; after a grant with expires={:?} it is {:?}", p.expires, exp, q.expires)));
+    }
+    Ok(())
+}
+
 #[allow(clippy::too_many_arguments)]
 fn check_c08(w: &World, s: &Step, ok: bool, pre: &Obs, post: &Obs, at: &str, ctx: &mut CaseCtx, t: &mut Track) -> Result<(), Violation> {
     let prop = "C08";
     if !w.subkeys {
         return Ok(());
     }
+    check_grant_expiry(prop, s, ok, pre, post, at)?;
     let sender = w.senders[s.sender].as_str();
     let admin = pre.is_admin(sender);
     // who may see its allowance / permissions change in this call, and to what
